@@ -16,6 +16,7 @@ import (
 	"encoding/json"
 	"fmt"
 	"io"
+	"log/slog"
 	"math/rand"
 	"net/http"
 	"net/http/httptest"
@@ -215,6 +216,9 @@ func (h *vcHarness) newServer(params []string) {
 			Frequency: -1, GracePeriod: -1, RepoUploadMax: p["max"], Untagged: &tru, EmptyRepo: &tru}},
 		API: config.ConfigAPI{DeleteEnabled: &tru, Blob: config.ConfigAPIBlob{DeleteEnabled: &tru}, RateLimit: p["rate"]},
 	}
+	// a logger at debug level (what --verbosity debug sets up), written to nowhere: the attributes are formatted, so a
+	// shared map or slice handed to a log call is read
+	conf.Log = slog.New(slog.NewTextHandler(io.Discard, &slog.HandlerOptions{Level: slog.LevelDebug}))
 	if h.store == "dir" {
 		conf.Storage.StoreType = config.StoreDir
 		conf.Storage.RootDir = h.root
